@@ -71,6 +71,9 @@ def _scene(rng, gap_prob=0.15, cone=None):
   cone = cone or ("pyramidal" if rng.random() < 0.5 else "elliptic")
   jac = str(rng.choice(["dense", "sparse", "auto"]))
   n = int(rng.integers(1, 5))
+  if rng.random() < 0.25:
+    # 32 < nv < 60 with jacobian="auto": mujoco_warp works with a sparse Jacobian there while MuJoCo's MjData is dense
+    n, jac = int(rng.integers(6, 9)), "auto"
   bodies, meta = [], {"cone": cone, "jac": jac, "gap": 0, "kinds": []}
   for i in range(n):
     kind = str(rng.choice(["rest", "margin", "gap", "far"], p=[0.55, 0.2, gap_prob, 0.25 - gap_prob]))
